@@ -319,6 +319,7 @@ PROPS["C19"] = dict(
     line_mask=cases.line_mask_C19,
     config_tol=cases.config_tol_C19,
     cross=cases.cross_C19,
+    model_informational=True,
     float_value_eq=True,
     mask={"cat", "time", "unit", "float"},
     configs=[(None, "chk"), ("std,devices", "nochk"), ("libm,devices", "nochk")],
@@ -326,9 +327,11 @@ PROPS["C19"] = dict(
                       ("micromath,chk,devices", "chk"), ("micromath,devices", "nochk")],
     rule="one seeded workload over the whole public API (sub-samples of every other property's generator: quantities incl. "
          "ill-dimensioned programs, time/integer ops, states, commands, data, every stateless and stateful stream, motion profiles, "
-         "settables, terminals and every device and wrapper) run by the harness rebuilt from /repo under each configuration; every trace "
-         "is compared with the model run with the matching `chk` (floats as VALUES), and the traces are compared with each other: equal "
-         "values and timestamps for well-dimensioned lines, no dimension panic / unit rejection in unchecked builds. Lines whose value "
+         "settables, terminals and every device and wrapper) run by the harness rebuilt from /repo under each configuration; the "
+         "VERDICT comes from comparing the configurations with each other: equal values and timestamps for well-dimensioned lines, no "
+         "dimension panic in unchecked builds, and for ill-dimensioned lines the unchecked builds must compute the plain arithmetic on "
+         "the values (= the model with checking off). Each trace is also compared with the model run with the matching `chk`, but a "
+         "disagreement that is the same in every configuration is informational here (it belongs to the property owning that behaviour). Lines whose value "
          "depends on powf (EWMA, exponent stream) are compared with a bound instead of bit-for-bit under libm (1e-4 relative + 1e-4 absolute; observed <= 3e-6) and not "
          "compared at all under micromath (its powf is a coarse approximation: O(1) relative differences observed, and it panics on an "
          "internal integer overflow for base -0.0 in debug builds — third-party behaviour), as the property itself exempts the power "
